@@ -415,6 +415,88 @@ func c03(r *ev.Run) {
 		r.Violation("C03:race:"+rr.Key, "data race in request splitting / re-assembly", map[string]interface{}{"report": rr.Text})
 	}
 	sr.Close()
+	c03RefreshStorm(r)
 	r.Require("exact_comparisons", 1000)
 	r.Require("modeB_partitions_checked", 10)
+}
+
+// c03RefreshStorm: the layout never changes, but the routing table is re-fetched continuously (every 2 ms) while concurrent clients
+// issue keyed commands: once the table has been loaded no command may be redirected, and replies still equal the reference.
+func c03RefreshStorm(r *ev.Run) {
+	s, err := startSUT(r, false, 2, 1)
+	if err != nil {
+		r.Internal("start sut: %v", err)
+		return
+	}
+	defer s.Close()
+	rnd := rand.New(rand.NewSource(r.Seed + 303))
+	cl, err := fakecluster.New(4, 0)
+	if err != nil {
+		r.Internal("fakecluster: %v", err)
+		return
+	}
+	defer cl.Close()
+	layout := randomLayout(rnd, cl)
+	cl.LogArgs = false
+	var redirects, refreshes int64
+	cl.OnEvent = func(e *fakecluster.Event) {
+		switch {
+		case e.Cmd == "cluster":
+			atomic.AddInt64(&refreshes, 1)
+		case e.Outcome == fakecluster.Moved || e.Outcome == fakecluster.Ask:
+			atomic.AddInt64(&redirects, 1)
+		}
+	}
+	svc, err := startRedisSvc(s, cl, cl.Addrs(), RedisOpts{})
+	if err != nil || !svc.WaitRouting(3, 10*time.Second) {
+		r.Internal("storm service did not start: %v", err)
+		return
+	}
+	atomic.StoreInt64(&redirects, 0) // requests routed before the first table was loaded do not count
+	atomic.StoreInt64(&refreshes, 0)
+	nreq := 2500
+	if r.Tier == "thorough" {
+		nreq = 25000
+	}
+	var wrong int64
+	done := make(chan struct{}, 8)
+	for c := 0; c < 8; c++ {
+		go func(c int) {
+			defer func() { done <- struct{}{} }()
+			crnd := rand.New(rand.NewSource(r.Seed*71 + int64(c)))
+			conn, err := svc.Dial()
+			if err != nil {
+				return
+			}
+			defer conn.Close()
+			for i := 0; i < nreq; i++ {
+				k := fmt.Sprintf("storm.%d.%d", c, crnd.Intn(3000))
+				v := fmt.Sprintf("v%d", i)
+				if rep, err := conn.DoS(20*time.Second, "SET", k, v); err != nil || rep.Kind == resp.Error {
+					atomic.AddInt64(&wrong, 1)
+					return
+				}
+				if rep, err := conn.DoS(20*time.Second, "GET", k); err != nil || string(rep.Str) != v {
+					atomic.AddInt64(&wrong, 1)
+					return
+				}
+			}
+		}(c)
+	}
+	for c := 0; c < 8; c++ {
+		<-done
+	}
+	w := map[string]interface{}{"layout": layout, "refreshes_during_traffic": atomic.LoadInt64(&refreshes), "requests": 8 * nreq * 2}
+	if rd := atomic.LoadInt64(&redirects); rd > 0 {
+		w["redirected"] = rd
+		r.Violation("C03:redirect-on-stable-cluster:during-refresh", fmt.Sprintf("%d requests were answered MOVED/ASK by nodes of a cluster whose layout never changed, while the routing table was being re-fetched", rd), w)
+	}
+	if atomic.LoadInt64(&wrong) > 0 {
+		r.Violation("C03:reply-differs:during-refresh", "a connection read back something else than it wrote while the routing table was being re-fetched", w)
+	}
+	r.Count("storm_refreshes_during_traffic", atomic.LoadInt64(&refreshes))
+	r.Count("storm_requests", int64(8*nreq*2))
+	r.Case("storm/" + layout)
+	r.Require("storm_refreshes_during_traffic", 20)
+	s.StopProc(svc.Name, 20*time.Second)
 }
